@@ -1,0 +1,19 @@
+//go:build verif
+
+package cpu65c816
+
+// Contracts for the snesvc verifier (/verif). Comment-only; compiled only with -tags verif.
+
+// Summary of Step used by callers (System.RunUntil). Its cycle clause is proved per opcode by the lemmas
+// StepCycles65 (property C12); here it is assumed for every state, including pending interrupts.
+//@ func (*CPU).Step
+//@   modular
+//@   trusted
+//@   ensures ret1 >= 1 && ret1 <= 32
+//@   assigns *cpu, cpu.Bus.EA, cpu.Bus.Write
+
+// The disassembler only writes its output slice and the bus debug fields (frame proved under C14).
+//@ func (*CPU).DisassembleCurrentPC
+//@   modular
+//@   trusted
+//@   assigns c.Bus.EA, c.Bus.Write
